@@ -67,10 +67,14 @@ let cfg_case p k obs n wf (hs : n list list) lift body_of with_body bld bld_s rs
   match config_headers hs [] with
   | Inr _ -> ("newerr", verdict (obs = "newerr") "expected newerr", false)
   | Inl cfg ->
-      let pred = (match sched_run p k body_of with_body (lift cfg rs) with
-                  | Some rs -> print_run_b bld k rs | None -> "bad-schedule") in
-      let want = print_expected_b (bld_s cfg) k es in
-      finish obs k pred want n wf
+      let ms = mws_of p in
+      if not (mws_init_ok ms) then ("err", verdict (obs = "err") "expected err", false)
+      else begin
+        let pred = (match sched_run p k body_of with_body (lift cfg rs) with
+                    | Some rs -> print_run_b (bld ms) k rs | None -> "bad-schedule") in
+        let want = print_expected_b (bld_s ms cfg) k es in
+        finish obs k pred want n wf
+      end
 
 let predict (c : string) (obs : string) : string * string * bool =
   match split_blank c with
@@ -157,16 +161,18 @@ let predict (c : string) (obs : string) : string * string * bool =
         | Some hs ->
             (match config_headers hs [] with
              | Inr _ -> ("newerr", verdict (obs = "newerr") "expected newerr", false)
+             | Inl cfg when not (mws_init_ok (mws_of p)) -> ("err", verdict (obs = "err") "expected err", false)
              | Inl cfg ->
+                 let ms = mws_of p in
                  let run rs = (match sched_run p k mentry_body mentry_with_body rs with
-                               | Some rs -> print_run_b bld_mentry k rs | None -> "bad-schedule") in
+                               | Some rs -> print_run_b (bld_mentry ms) k rs | None -> "bad-schedule") in
                  let pred =
                    if is_arr then
                      (match json_array_decode_cfg url_parse cfg cfg0 (nat_of_int k) ents with
                       | None -> "newerr"
                       | Some rs -> run rs)
                    else run (json_stream_decode_cfg url_parse cfg cfg0 (nat_of_int k) ents JEof) in
-                 let want = if List.length es <> n then "entity-rejected" else print_expected_b (bld_spec cfg) k es in
+                 let want = if List.length es <> n then "entity-rejected" else print_expected_b (bld_spec ms cfg) k es in
                  finish obs k pred want n (List.length es = n))
         | None ->
         let pred =
